@@ -1,14 +1,24 @@
 #![allow(dead_code, unused_imports)]
+#![cfg_attr(feature = "nightly", feature(generic_const_exprs))]
+#![cfg_attr(feature = "nightly", allow(incomplete_features))]
 //! `check <ID> [--tier quick|thorough] [--seed N] | check <ID> --replay <file> | check selftest`
 mod engine;
 mod exact;
 mod gen;
+mod hist;
 mod oracle;
 mod p2ref;
 mod props;
 mod types;
 
 use engine::*;
+
+average::define_histogram!(h1, 1);
+average::define_histogram!(h2, 2);
+average::define_histogram!(h3, 3);
+average::define_histogram!(h4, 4);
+average::define_histogram!(h10, 10);
+average::define_histogram!(h100, 100);
 use std::path::PathBuf;
 
 fn usage() -> ! {
